@@ -614,6 +614,9 @@ func callSSA(i *interpreter, caller *frame, callpos token.Pos, fn *ssa.Function,
 			HookHits[name]++
 			return ext(fr, args)
 		}
+		if fn.Blocks == nil && fn.Pkg != nil {
+			fn.Pkg.Build()
+		}
 		if fn.Blocks == nil {
 			panic(engineLimit{"no code for function: " + name})
 		}
@@ -783,6 +786,9 @@ func doRecover(caller *frame) value {
 }
 
 var needsInit = map[*ssa.Global]bool{}
+
+// InitVars: "pkgpath.name" of every package-level variable with an initialiser.
+var InitVars = map[string]bool{}
 var MainPkg *ssa.Package
 
 type Machine struct {
@@ -816,16 +822,11 @@ func Setup(mainpkg *ssa.Package, mode Mode, sizes types.Sizes) *Machine {
 			}
 		}
 		// guard: globals written by a skipped init
+		// (the variables that have an initialiser come from go/types' InitOrder)
 		if InitAllow != nil && !InitAllow(pkg.Pkg.Path()) {
-			if f := pkg.Func("init"); f != nil {
-				for _, b := range f.Blocks {
-					for _, in := range b.Instrs {
-						for _, op := range in.Operands(nil) {
-							if g, ok := (*op).(*ssa.Global); ok && g.Pkg == pkg && !strings.HasPrefix(g.Name(), "init$") {
-								needsInit[g] = true
-							}
-						}
-					}
+			for _, mem := range pkg.Members {
+				if g, ok := mem.(*ssa.Global); ok && InitVars[pkg.Pkg.Path()+"."+g.Name()] {
+					needsInit[g] = true
 				}
 			}
 		}
